@@ -792,6 +792,49 @@ def replay_of(job, parser, what, impl):
 
 
 # =====================================================================================================
+def logicapath_stream(rep):
+  """LOGICAPATH as read by logica.py: the import roots reach the parser in the order written (the first root that has
+  the file wins), a single root as a string, no variable as None."""
+  import ast
+  import os
+  import types
+  # logica.py is a script with package-relative imports; its function GetImportRoot is compiled from the current source
+  path = os.path.join(common.REPO, 'logica.py')
+  try:
+    tree = ast.parse(open(path).read())
+    fn = [n for n in tree.body if isinstance(n, ast.FunctionDef) and n.name == 'GetImportRoot'][0]
+    ns = {'os': os}
+    exec(compile(ast.Module(body=[fn], type_ignores=[]), path, 'exec'), ns)   # pylint: disable=exec-used
+    logica = types.SimpleNamespace(GetImportRoot=ns['GetImportRoot'])
+  except Exception as e:  # pylint: disable=broad-except
+    rep.violation('logicapath-order', {'broken': 'logica.py GetImportRoot cannot be read: %s' % str(e)[:200]}, no_input=True)
+    return 1
+  cases = [('zeta/root:alpha/root', ['zeta/root', 'alpha/root']), ('b:a:c', ['b', 'a', 'c']), ('/x/only', '/x/only'),
+           ('m:m2:a9', ['m', 'm2', 'a9']), (None, None)]
+  old = os.environ.get('LOGICAPATH')
+  bad = 0
+  try:
+    for env, want in cases:
+      if env is None:
+        os.environ.pop('LOGICAPATH', None)
+      else:
+        os.environ['LOGICAPATH'] = env
+      got = logica.GetImportRoot()
+      if got != want:
+        bad += 1
+        rep.violation('logicapath-order', {'LOGICAPATH': env, 'expected_import_root': want, 'observed': got,
+                                           'law': 'the import roots are tried in the order they are written in LOGICAPATH',
+                                           'how': 'logica.GetImportRoot() with os.environ["LOGICAPATH"] set'})
+        break
+  finally:
+    if old is None:
+      os.environ.pop('LOGICAPATH', None)
+    else:
+      os.environ['LOGICAPATH'] = old
+  rep.coverage['logicapath'] = {'cases': len(cases), 'bad': bad}
+  return bad
+
+
 def run(tier, replay=None):
   rep = common.Report(PID, tier, 'proof')
   rep.assumptions = [
@@ -934,6 +977,7 @@ def _run(rep, tier, replay, ok, info, top, t_start):
       'timing': timing,
       'tie_wall_s': round(time.time() - t_start, 1),
   })
+  logicapath_stream(rep)
   return rep.finish()
 
 
